@@ -5,6 +5,7 @@
   hashInputFiles / GetTargetChangeHash feed to the hasher; the hash is a parameter `H`).
 -/
 import GrogModel.Lemmas.Hash
+import GrogModel.Lemmas.Proto
 namespace Grog.C09
 open Grog
 
@@ -281,5 +282,28 @@ theorem outHash_inj (H : Bytes → Bytes) (hH : ∀ x y, H x = H y → x = y) (w
   · have := congrArg List.length h; simp [hlen] at this; omega
   · have := congrArg List.length h; simp [hlen] at this; omega
   · rw [List.isEmpty_iff.mp hx, List.isEmpty_iff.mp hy]
+
+/-- The deterministic protobuf marshalling of an `Output` message (file or directory output: path, content
+    digest, size, executable bit) is injective — proved for the marshalling *model* `Proto.serOutput`, which
+    the correspondence check compares byte-for-byte with `proto.Marshal`. -/
+theorem serOutput_injective (a b : Proto.Output) (h : Proto.serOutput a = Proto.serOutput b) : a = b :=
+  Proto.serOutput_injective' h
+
+/-- Equal output hashes ⇒ equal multisets of outputs (definition, digest, size, executable bit): no
+    hypothesis on the marshalling is left, only on the hash function. -/
+theorem outHash_outputs_inj (H : Bytes → Bytes) (hH : ∀ x y, H x = H y → x = y) (w : Nat) (hw : 0 < w)
+    (hlen : ∀ x, (H x).length = w) (xs ys : List Proto.Output)
+    (h : outHash H (xs.map Proto.serOutput) = outHash H (ys.map Proto.serOutput)) : xs.Perm ys := by
+  have h1 := outHash_inj H hH w hw hlen _ _ h
+  have h2 := Proto.perm_of_map_perm H hH _ _ h1
+  exact Proto.perm_of_map_perm Proto.serOutput (fun a b => Proto.serOutput_injective') _ _ h2
+
+/-- …and the output hash is independent of the order in which outputs were written. -/
+theorem outHash_order_independent (H : Bytes → Bytes) (xs ys : List Bytes) (h : xs.Perm ys) :
+    outHash H xs = outHash H ys := by
+  unfold outHash
+  have he : xs.isEmpty = ys.isEmpty := by
+    cases xs <;> cases ys <;> simp_all
+  rw [he, (sortBytes_eq_iff _ _).mpr (h.map H)]
 
 end Grog.C09
